@@ -18,6 +18,8 @@ import (
 	"bufio"
 	"bytes"
 	"encoding"
+	"encoding/base64"
+	"encoding/json"
 	"errors"
 	"fmt"
 	"io"
@@ -27,7 +29,9 @@ import (
 	"net/http"
 	"net/http/httputil"
 	"os"
+	"strings"
 	"time"
+	"unicode/utf8"
 )
 
 // Response represents a cached HTTP response entry.
@@ -150,6 +154,86 @@ type ResponseRef struct {
 	Vary         string            `json:"vary"`                 // value of the Vary response header.
 	VaryResolved map[string]string `json:"vary_resolved"`        // resolved varying request headers, keys are canonicalized.
 	ReceivedAt   time.Time         `json:"received_at,omitzero"` // when the response was generated.
+}
+
+// The variant index is stored as JSON, and encoding/json replaces bytes that
+// are not valid UTF-8 by U+FFFD. Field values (and so the resolved selecting
+// values, Vary and, through the query, the response ID) may hold such bytes:
+// they are written in an escaped form that decodes to the exact bytes.
+
+// jsonSafePrefix marks an escaped string. NUL cannot occur in a header field
+// value or a URL, so plain strings never start with it.
+const jsonSafePrefix = "\x00b64:"
+
+func toJSONSafe(s string) string {
+	if utf8.ValidString(s) && !strings.HasPrefix(s, jsonSafePrefix) {
+		return s
+	}
+	return jsonSafePrefix + base64.RawStdEncoding.EncodeToString([]byte(s))
+}
+
+func fromJSONSafe(s string) (string, error) {
+	rest, escaped := strings.CutPrefix(s, jsonSafePrefix)
+	if !escaped {
+		return s, nil
+	}
+	b, err := base64.RawStdEncoding.DecodeString(rest)
+	return string(b), err
+}
+
+// responseRefJSON is the stored form of a [ResponseRef].
+type responseRefJSON struct {
+	ResponseID   string            `json:"id"`
+	Vary         string            `json:"vary"`
+	VaryResolved map[string]string `json:"vary_resolved"`
+	ReceivedAt   time.Time         `json:"received_at,omitzero"`
+}
+
+func (r ResponseRef) MarshalJSON() ([]byte, error) {
+	out := responseRefJSON{
+		ResponseID: toJSONSafe(r.ResponseID),
+		Vary:       toJSONSafe(r.Vary),
+		ReceivedAt: r.ReceivedAt,
+	}
+	if r.VaryResolved != nil {
+		out.VaryResolved = make(map[string]string, len(r.VaryResolved))
+		for k, v := range r.VaryResolved {
+			out.VaryResolved[toJSONSafe(k)] = toJSONSafe(v)
+		}
+	}
+	return json.Marshal(out)
+}
+
+func (r *ResponseRef) UnmarshalJSON(data []byte) error {
+	var in responseRefJSON
+	if err := json.Unmarshal(data, &in); err != nil {
+		return err
+	}
+	id, err := fromJSONSafe(in.ResponseID)
+	if err != nil {
+		return err
+	}
+	vary, err := fromJSONSafe(in.Vary)
+	if err != nil {
+		return err
+	}
+	var resolved map[string]string
+	if in.VaryResolved != nil {
+		resolved = make(map[string]string, len(in.VaryResolved))
+		for k, v := range in.VaryResolved {
+			dk, err := fromJSONSafe(k)
+			if err != nil {
+				return err
+			}
+			dv, err := fromJSONSafe(v)
+			if err != nil {
+				return err
+			}
+			resolved[dk] = dv
+		}
+	}
+	*r = ResponseRef{ResponseID: id, Vary: vary, VaryResolved: resolved, ReceivedAt: in.ReceivedAt}
+	return nil
 }
 
 var _ slog.LogValuer = (*ResponseRef)(nil)
